@@ -109,6 +109,13 @@ impl Gen {
             vec![b("EVAL"), b("return redis.pcall('HSET', KEYS[1], 'f', ARGV[1])"), b("1"), k.clone(), v.clone()],
             vec![b("EVAL"), b("this is not lua"), b("0")], vec![b("EVAL"), b("return redis.call('GET')"), b("0")],
             vec![b("EVAL"), b("error('boom')"), b("1"), k.clone()], vec![b("EVALSHA"), b("ffffffffffffffffffffffffffffffffffffffff"), b("0")],
+            // expiry arguments whose conversion to milliseconds overflows: an error, and nothing written
+            vec![b("SET"), k.clone(), v.clone(), b("EX"), b("9223372036854775807")], vec![b("SET"), k.clone(), v.clone(), b("EX"), b("9223372036854776")],
+            vec![b("SET"), k.clone(), v.clone(), b("EX"), b("9223372036854776"), b("NX")], vec![b("SET"), k.clone(), v.clone(), b("EX"), b("9223372036854776"), b("XX")],
+            vec![b("SETEX"), k.clone(), b("9223372036854775807"), v.clone()], vec![b("SETEX"), k.clone(), b("9223372036854776"), v.clone()],
+            vec![b("EXPIRE"), k.clone(), b("9223372036854776")],
+            // (PX / EXAT at i64::MAX are accepted by the code with a saturated deadline far beyond what the
+            //  projection can carry in TLC integers: left out)
             vec![b("FOOBAR"), k.clone()], vec![b("GET")], vec![b("SET"), k.clone()], vec![b("SET"), k.clone(), v.clone(), b("EX"), b("abc")],
             vec![b("SET"), k.clone(), v.clone(), b("NX"), b("XX")], vec![b("SET"), k.clone(), v.clone(), b("EX"), b("10"), b("PX"), b("10")],
             vec![b("ZADD"), k.clone(), b("NX"), b("XX"), b("1"), b("a")], vec![b("ZADD"), k.clone(), b("notafloat"), b("a")], vec![b("ZADD"), k.clone(), b("1")],
